@@ -102,7 +102,7 @@ CLAIMS = {
         'DESIGN.md section 5, C15',
     ),
     'C16': (
-        'With feature serde (also +strict-parser, +serde-buffered): a mock Serializer with symbolic is_human_readable records exactly one serialize_str("T1..") / serialize_bytes(binary form); a mock Deserializer drives the visitors with 8 kinds of events and symbolic payloads: Ok iff the matching parser accepts, same value, never a panic; the entry point used (str/string/bytes/byte_buf) is the documented one; de(ser(h)) == h.',
+        'With feature serde (also +strict-parser, +serde-buffered): a mock Serializer with symbolic is_human_readable records exactly one serialize_str("T1..") / serialize_bytes(binary form); a mock Deserializer drives the visitors with 13 kinds of events (str, bytes, borrowed str/bytes, integers incl. u128, bool, unit, f64, none, char, empty seq) and symbolic payloads: Ok iff the matching parser accepts, same value, never a panic; the entry point used (str/string/bytes/byte_buf) is the documented one; de(ser(h)) == h.',
         "Trusted: Kani's MIR->goto translation, CBMC 6.11 + CaDiCaL, the reference model in harness/refmodel.rs (independent table copies), the stubs listed per harness in the evidence (each a model of an unsupported intrinsic, a proved contract, or a caller-supplied trait impl). Not decided: serde_json / ciborium / postcard themselves (whole-format parsers); their conformance to the serde data model is trusted. Payload lengths are concrete per instance.",
         'Kani/CBMC bounded model checking (SAT) of the compiled MIR with symbolic inputs; lemma decomposition; native replay of counterexamples',
         'DESIGN.md section 5, C16',
